@@ -81,6 +81,20 @@ type State struct {
 	casDraws   []Term
 	preStmt    *Ghost
 	jsonMaps   map[string]int
+	bulk       []func(st *State, idx Term) Term // pointwise table definitions, instantiated per obligation
+	inst       map[string][]func(st *State, t Term) Term // universally quantified facts, instantiated per obligation on terms of a sort
+	loopVisited map[string]Term
+	loopKey     map[string]Term
+}
+
+// addInst registers a universally quantified fact over `sort`; it is instantiated on the terms of an obligation.
+func (st *State) addInst(sort *Sort, f func(st *State, t Term) Term) {
+	n := make(map[string][]func(st *State, t Term) Term, len(st.inst)+1)
+	for k, v := range st.inst {
+		n[k] = v
+	}
+	n[sort.Name] = append(n[sort.Name][:len(n[sort.Name]):len(n[sort.Name])], f)
+	st.inst = n
 }
 
 func (st *State) clone() *State {
@@ -112,6 +126,7 @@ func (st *State) clone() *State {
 		c.visits[k] = v
 	}
 	c.notes = st.notes[:len(st.notes):len(st.notes)]
+	c.bulk = st.bulk[:len(st.bulk):len(st.bulk)]
 	c.nows = st.nows[:len(st.nows):len(st.nows)]
 	c.clockDraws = st.clockDraws[:len(st.clockDraws):len(st.clockDraws)]
 	c.casDraws = st.casDraws[:len(st.casDraws):len(st.casDraws)]
@@ -203,6 +218,8 @@ type Engine struct {
 	forkChecks int
 	nowrapSites []nowrapSite
 	wantNowrap bool
+	known      *KnownFile
+	prop       string
 	cellNames  map[int]string
 	ufStrs     map[string]string
 	ufPreds    map[string]bool
@@ -361,7 +378,7 @@ func (e *Engine) symbolicMap(st *State, m *types.Map, name string) Value {
 	obj := &MapObj{Typ: m}
 	if ks, vs, absent, ok := mapSorts(m); ok {
 		obj.KeySort, obj.ValSort, obj.Absent = ks, vs, absent
-		obj.Arr = st.declare("in."+sanitize(name), &Sort{fmt.Sprintf("(Array %s %s)", ks.Name, vs.Name)})
+		obj.Arr = st.declare("in."+sanitize(name), canonSort(fmt.Sprintf("(Array %s %s)", ks.Name, vs.Name)))
 	} else {
 		obj.Struct = true
 		obj.Entries = map[string]Value{}
